@@ -32,6 +32,11 @@ class Effect:
         return self.origin.site_func if self.origin is not None else self.func
 
     @property
+    def site_target(self) -> "ast.expr | None":
+        """the path operand as written at the call that performs the effect itself"""
+        return self.origin.site_target if self.origin is not None else self.target
+
+    @property
     def site(self) -> ast.Call:
         """the call that performs the effect itself (open / write_text / subprocess.run ...), wherever it is stated"""
         return self.origin.site if self.origin is not None else self.node
@@ -46,7 +51,18 @@ def effect_sites(ix: Any) -> list[Effect]:
             if not isinstance(n, ast.Call):
                 continue
             cn = call_name(n)
-            if isinstance(n.func, ast.Attribute) and n.func.attr in EFFECT_METHODS:
+            r = ix.resolve(f.module, cn)
+            if r is not None and r[0] == "ext" and str(r[1]) in EFFECT_FUNCS:
+                cn = str(r[1])   # imported under another name (`from os import makedirs`, `import shutil as sh`)
+            if cn in EFFECT_FUNCS and cn.split(".")[0] in ("os", "shutil", "subprocess"):
+                # a function of os / shutil / subprocess called by its full name (`os.mkdir(p)`): the path is its first argument, also
+                # where a Path method of the same name exists
+                kw = {k.arg: k.value for k in n.keywords}
+                tgt = n.args[0] if n.args else None
+                if cn.endswith("run") or cn.endswith("Popen") or cn.endswith("call"):
+                    tgt = kw.get("cwd", tgt)
+                out.append(Effect(f, n, cn.rsplit(".", 1)[-1], tgt))
+            elif isinstance(n.func, ast.Attribute) and n.func.attr in EFFECT_METHODS:
                 # exclude str.replace etc.: the receiver must not be an obvious string operation
                 if n.func.attr in ("replace", "rename") and not _pathish(n.func.value):
                     continue
@@ -245,3 +261,330 @@ def in_context(ix: Any, effs: list[Effect], depth: int = 3) -> list[Effect]:
     for e in effs:
         place(e, depth)
     return out
+
+
+# ---- arguments of an effect, through the helpers that perform it -------------------------------------------------------------------
+def _param_default(f: FuncInfo, name: str) -> "ast.expr | None":
+    a = f.node.args
+    pos = [*a.posonlyargs, *a.args]
+    for p, d in zip(pos[len(pos) - len(a.defaults):], a.defaults):
+        if p.arg == name:
+            return d
+    for p, d in zip(a.kwonlyargs, a.kw_defaults):
+        if p.arg == name:
+            return d
+    return None
+
+
+def effect_argument(ix: Any, e: Effect, kw: str, pos: int) -> "ast.expr | None":
+    """The expression an effect's own call (`e.site`) is given for the keyword `kw` (or at index `pos` of the call's
+    positional arguments as written), None when it is not given (the library's default applies). When the call sits in a helper and hands on one of the
+    helper's parameters (`def _mk(self, d, tolerant=False): d.mkdir(exist_ok=tolerant)`), the parameter is replaced by what the
+    helper is called with (or by its default), along the calls at which the effect is stated."""
+    chain: list[Effect] = []
+    x: "Effect | None" = e
+    while x is not None:
+        chain.append(x)
+        x = x.origin
+    chain.reverse()  # the effect's own call first, then the calls of the helpers it is stated at
+    site = chain[0].node
+    val: "ast.expr | None" = next((k.value for k in site.keywords if k.arg == kw), None)
+    if val is None and 0 <= pos < len(site.args):
+        val = site.args[pos]
+    for inner, outer in zip(chain, chain[1:]):
+        if not (isinstance(val, ast.Name) and val.id in _own_params(inner.func)):
+            break
+        args = bind_call(ix, outer.func, outer.node, inner.func) or {}
+        val = args[val.id] if val.id in args else _param_default(inner.func, val.id)
+    return val
+
+
+def constant_of(x: "ast.expr | None", default: Any) -> Any:
+    """value of a literal argument; `default` when the argument is absent; the marker `...` when it is computed"""
+    if x is None:
+        return default
+    return x.value if isinstance(x, ast.Constant) else ...
+
+
+# ---- observations of the filesystem, and what depends on them ----------------------------------------------------------------------
+# calls that report what the filesystem holds (Path methods, os / os.path / glob functions of the same names): whether something
+# exists, what kind it is, its metadata, its content, a listing.  `shutil.which` is not among them: it is given a command name and
+# searches PATH, it says nothing about a path of the generation.
+PROBE_NAMES = {"exists", "is_file", "is_dir", "is_symlink", "is_mount", "stat", "lstat", "read_text", "read_bytes", "iterdir", "glob",
+               "rglob", "iglob", "samefile", "readlink", "isfile", "isdir", "islink", "lexists", "getmtime", "getctime", "getsize",
+               "listdir", "scandir", "walk", "access"}
+# exception classes through which a filesystem operation reports the state it met
+OS_ERRORS = {"OSError", "IOError", "EnvironmentError", "FileExistsError", "FileNotFoundError", "PermissionError", "IsADirectoryError",
+             "NotADirectoryError", "Exception", "BaseException"}
+
+
+def is_probe(ix: Any, f: FuncInfo, c: ast.Call) -> bool:
+    """c reads the state of the filesystem: a probe by name (method / os.path function), or an `open` that does not overwrite"""
+    def reads(mode: "ast.expr | None") -> bool:
+        """opened for reading - or for exclusive creation, which reports (by failing) that the path is there"""
+        m = constant_of(mode, "r")
+        return m is not ... and ("x" in str(m) or not any(ch in str(m) for ch in "wa+"))
+
+    cn = call_name(c)
+    r = ix.resolve(f.module, cn)
+    if r is not None and r[0] == "ext":   # a function of a library module, by whatever name it was imported
+        full = str(r[1])
+        return full.rsplit(".", 1)[-1] in PROBE_NAMES and full.split(".")[0] in ("os", "glob", "pathlib")
+    if r is not None:                     # something the package defines itself
+        return False
+    if cn == "open":
+        return reads(next((k.value for k in c.keywords if k.arg == "mode"), c.args[1] if len(c.args) > 1 else None))
+    if isinstance(c.func, ast.Attribute):  # a method of a value
+        if c.func.attr == "open":          # Path.open(mode='r')
+            return reads(next((k.value for k in c.keywords if k.arg == "mode"), c.args[0] if c.args else None))
+        return c.func.attr in PROBE_NAMES
+    return False
+
+
+def reach(ix: Any, root: FuncInfo) -> list[FuncInfo]:
+    """root and every function of the package it can run (calls resolved as in `callee_of`), transitively"""
+    out, todo = [root], [root]
+    while todo:
+        g = todo.pop()
+        for c in ast.walk(g.node):
+            if isinstance(c, ast.Call):
+                h = callee_of(ix, g, c)
+                if h is not None and h not in out:
+                    out.append(h)
+                    todo.append(h)
+    return out
+
+
+def _closure(funcs: list[FuncInfo], ix: Any, seed: "set[str]") -> "set[str]":
+    """quals of the functions that are in `seed` or call (transitively) a function that is"""
+    got = set(seed)
+    changed = True
+    while changed:
+        changed = False
+        for g in funcs:
+            if g.qual in got:
+                continue
+            if any(isinstance(c, ast.Call) and getattr(callee_of(ix, g, c), "qual", None) in got for c in ast.walk(g.node)):
+                got.add(g.qual)
+                changed = True
+    return got
+
+
+def control_dependence(cfg: Any, removed: "set[int]" = frozenset()) -> "dict[object, set[object]]":  # type: ignore[assignment]
+    """node -> the branching nodes it is (transitively) control-dependent on: X decides whether S runs iff S post-dominates one
+    successor of X but not X itself. Computed on the statement CFG (a statement inside a `try` branches to the handlers), with the
+    nodes in `removed` (by id) taken out - exits that are not to be counted as a way of not reaching S. Early return, nested if,
+    swapped branches and loops all give the same answer."""
+    from ..cfg import EXIT
+
+    nodes = [n for n in cfg.nodes if n in cfg.succ and id(n) not in removed]
+    # the edge from a `try` to its own handlers is dropped: the statements of its body are what may raise, entering a try decides nothing
+    succ = {n: [s for s in cfg.succ.get(n, ()) if id(s) not in removed and not (isinstance(n, ast.Try) and s in n.handlers)]
+            for n in nodes}
+    # what cannot reach the exit any more (it only led to a removed node) is no way of leaving either
+    alive: set[object] = {EXIT}
+    grown = True
+    while grown:
+        grown = False
+        for n in nodes:
+            if n not in alive and any(s in alive for s in succ[n]):
+                alive.add(n)
+                grown = True
+    nodes = [n for n in nodes if n in alive]
+    succ = {n: [s for s in succ[n] if s in alive] for n in nodes}
+    allset = set(nodes)
+    pdom: dict[object, set[object]] = {n: set(allset) for n in nodes}
+    pdom[EXIT] = {EXIT}
+    changed = True
+    while changed:
+        changed = False
+        for n in reversed(nodes):
+            if n is EXIT:
+                continue
+            ss = [pdom[s] for s in succ[n]]
+            new = (set.intersection(*ss) if ss else set()) | {n}
+            if new != pdom[n]:
+                pdom[n] = new
+                changed = True
+    direct: dict[object, set[object]] = {n: set() for n in nodes}
+    for x in nodes:
+        if len(succ[x]) < 2:
+            continue
+        for s in succ[x]:
+            for t in pdom[s]:
+                if t is not x and t not in pdom[x]:
+                    direct[t].add(x)
+    out: dict[object, set[object]] = {}
+    for n in nodes:
+        seen: set[object] = set()
+        todo = list(direct[n])
+        while todo:
+            x = todo.pop()
+            if x in seen:
+                continue
+            seen.add(x)
+            todo += list(direct.get(x, ()))
+        out[n] = seen
+    return out
+
+
+def expression_guards(st: ast.AST, node: ast.AST) -> list[ast.expr]:
+    """the tests inside the statement's own expressions that decide whether `node` is evaluated: the test of a conditional expression
+    it is an arm of, the earlier operands of an and / or, the `if`s and iterables of a comprehension it is the element of"""
+    from ..cfg import own_exprs
+
+    parent: dict[int, ast.AST] = {}
+    for root in own_exprs(st) if isinstance(st, (ast.stmt, ast.ExceptHandler)) else [st]:
+        for p in ast.walk(root):
+            for ch in ast.iter_child_nodes(p):
+                parent[id(ch)] = p
+    out: list[ast.expr] = []
+    cur: ast.AST = node
+    while id(cur) in parent:
+        p = parent[id(cur)]
+        if isinstance(p, ast.IfExp) and cur is not p.test:
+            out.append(p.test)
+        elif isinstance(p, ast.BoolOp):
+            i = next((k for k, v in enumerate(p.values) if v is cur), 0)
+            out += p.values[:i]
+        elif isinstance(p, (ast.ListComp, ast.SetComp, ast.GeneratorExp, ast.DictComp)) and not isinstance(cur, ast.comprehension):
+            for g in p.generators:
+                out += [g.iter, *g.ifs]
+        cur = p
+    return out
+
+
+@dataclass
+class Dependent:
+    func: FuncInfo
+    stmt: ast.AST          # CFG node of func
+    call: ast.Call         # the producing call, or the call of a function that produces
+    on: list[str]          # the observations it depends on (text of the deciding test / handler / argument), empty: independent
+
+
+def state_dependence(ix: Any, root: FuncInfo, producing: "set[int]", touching: "set[int]", sanctioned: "set[int]",
+                     cfgs: dict) -> list[Dependent]:
+    """For every call in the functions `root` can run that produces something (a call whose id is in `producing`, or a call of a
+    function that contains one, transitively): the observations of the filesystem that decide whether it happens or that flow into
+    its arguments.
+
+    Observations are probe calls (`is_probe`), handlers of an OSError class around code that touches the filesystem (a call in
+    `touching`, a probe, or a function containing one) and calls of functions that contain an observation; their outcomes are
+    followed through locals and attributes - assigned from them, or assigned where an observation decides. `sanctioned` are exits
+    (statements, by id) that are allowed to depend on an observation: they are taken out of the graph, so that what follows them on
+    the other arm does not count as depending on it."""
+    from ..astutil import Locals, cfg_of, norm
+    from ..cfg import walk_own
+
+    funcs = reach(ix, root)
+    init = ix.find_method(root.cls, "__init__") if root.cls is not None else None
+    for g in (reach(ix, init) if init is not None else []):   # attributes the object is built with are read by its methods
+        if g not in funcs:
+            funcs.append(g)
+    calls = {g.qual: [c for c in ast.walk(g.node) if isinstance(c, ast.Call)] for g in funcs}
+    probes = {g.qual: {id(c) for c in calls[g.qual] if is_probe(ix, g, c)} for g in funcs}
+    touchers = _closure(funcs, ix, {g.qual for g in funcs if probes[g.qual] or any(id(c) in touching for c in calls[g.qual])})
+
+    def touches(g: FuncInfo, nodes: Any) -> bool:
+        return any(isinstance(c, ast.Call) and (id(c) in touching or id(c) in probes[g.qual] or
+                                                getattr(callee_of(ix, g, c), "qual", None) in touchers) for c in nodes)
+
+    def os_error(h: ast.ExceptHandler) -> bool:
+        if h.type is None:
+            return True
+        ts = h.type.elts if isinstance(h.type, ast.Tuple) else [h.type]
+        return any(norm(t).rsplit(".", 1)[-1] in OS_ERRORS for t in ts)
+
+    handlers = {g.qual: {id(h) for t in ast.walk(g.node) if isinstance(t, ast.Try) and touches(g, (c for b in t.body for c in ast.walk(b)))
+                         for h in t.handlers if os_error(h)} for g in funcs}
+    observers = _closure(funcs, ix, {g.qual for g in funcs if probes[g.qual] or handlers[g.qual]})
+    producers = _closure(funcs, ix, {g.qual for g in funcs if any(id(c) in producing for c in calls[g.qual])})
+    attrs: set[str] = set()   # attributes that carry the outcome of an observation
+
+    def analyse(g: FuncInfo) -> tuple[list[Dependent], bool]:
+        cfg = cfg_of(g, cfgs)
+        deps = control_dependence(cfg, sanctioned)
+        lc = Locals(g.node)
+        tainted: set[str] = set()
+
+        def observed(e: ast.AST) -> bool:
+            for n in ast.walk(e):
+                if isinstance(n, ast.Name) and isinstance(n.ctx, ast.Load) and n.id in tainted:
+                    return True
+                if isinstance(n, ast.Attribute) and isinstance(n.ctx, ast.Load) and n.attr in attrs:
+                    return True
+                if isinstance(n, ast.Call) and (id(n) in probes[g.qual] or getattr(callee_of(ix, g, n), "qual", None) in observers):
+                    return True
+            return False
+
+        def own(n: object) -> list[ast.AST]:
+            return [n.subject] if isinstance(n, ast.Match) else own_exprs_of(n)
+
+        def deciding(n: object) -> bool:
+            """branching node whose outcome depends on an observation: a test over one, or a statement that touches the filesystem
+            and may raise into a handler of an OSError class"""
+            if not isinstance(n, ast.Try) and any(id(s) in handlers[g.qual] for s in cfg.succ.get(n, ())) and \
+                    touches(g, (c for e in own(n) for c in ast.walk(e))):
+                return True
+            return isinstance(n, (ast.If, ast.While, ast.For, ast.AsyncFor, ast.Match)) and any(observed(e) for e in own(n))
+
+        def decided(st: object) -> bool:
+            return any(deciding(x) for x in deps.get(st, ()))
+
+        grew = False
+        changed = True
+        while changed:   # what carries an observation: by value, or by being assigned where an observation decides
+            changed = False
+            for name, ds in lc.defs.items():
+                if name not in tainted and any((v is not None and observed(v)) or decided(st) for _kind, st, v in ds):
+                    tainted.add(name)
+                    changed = True
+            for st in cfg.nodes:
+                if isinstance(st, (ast.Assign, ast.AnnAssign, ast.AugAssign)) and st.value is not None:
+                    for t in (st.targets if isinstance(st, ast.Assign) else [st.target]):
+                        if isinstance(t, ast.Attribute) and t.attr not in attrs and (observed(st.value) or decided(st)):
+                            attrs.add(t.attr)
+                            changed = grew = True
+        found: list[Dependent] = []
+        mine = [c for c in calls[g.qual] if id(c) in producing or getattr(callee_of(ix, g, c), "qual", None) in producers]
+        for st in cfg.nodes if mine else []:
+            if not isinstance(st, (ast.stmt, ast.ExceptHandler)) or id(st) in sanctioned:
+                continue
+            for c in walk_own(st):
+                if not any(c is m for m in mine):
+                    continue
+                on = [_describe(x) for x in deps.get(st, ()) if deciding(x)]
+                on += [norm(t)[:60] for t in expression_guards(st, c) if observed(t)]
+                on += [norm(a)[:60] for a in [*c.args, *[k.value for k in c.keywords]] if observed(a)]
+                if id(c) in probes[g.qual]:
+                    on.append("the call itself succeeds only when the path is missing")
+                found.append(Dependent(g, st, c, sorted(set(on))))
+        return found, grew
+
+    while True:
+        out: list[Dependent] = []
+        again = False
+        for g in funcs:
+            found, grew = analyse(g)
+            out += found
+            again = again or grew
+        if not again:
+            return out
+
+
+def own_exprs_of(n: object) -> list[ast.AST]:
+    from ..cfg import own_exprs
+
+    return own_exprs(n) if isinstance(n, (ast.stmt, ast.ExceptHandler)) else []  # type: ignore[arg-type]
+
+
+def _describe(n: object) -> str:
+    if isinstance(n, ast.Try):
+        return "try/except " + ", ".join(ast.unparse(h.type) if h.type is not None else "<any>" for h in n.handlers)
+    if isinstance(n, (ast.If, ast.While)):
+        return f"{type(n).__name__.lower()} {ast.unparse(n.test)[:60]}"
+    if isinstance(n, (ast.For, ast.AsyncFor)):
+        return f"for ... in {ast.unparse(n.iter)[:60]}"
+    if isinstance(n, ast.AST):
+        return ast.unparse(n)[:60] + " (may raise into an OSError handler)"
+    return str(n)
